@@ -859,6 +859,7 @@ impl Engine for C04 {
         spaces.push(("programs whose import names something unusual (28 paths x 3 forms)".into(), p_imports()));
         spaces.push(("corpus programs cut after each token (end of text, or one line break, right after it)".into(), p_prefix()));
         spaces.push(("number literals at and around the ends of the integer types, in five places".into(), p_numbers()));
+        spaces.push(("every string of <= 5 characters over the alphabet of a token class (path segment, property name, identifier, reference)".into(), p_lexemes()));
         spaces.push(("annotations repeating a long non-ASCII key (diagnostics that quote source text, every length and byte alignment)".into(), p_messages()));
         spaces.push(("ordered pairs of generated expressions of <= 2 constructors side by side, unparenthesised, in six list positions".into(), p_pairs()));
         spaces.push(("nesting families".into(), p_nest(thorough)));
